@@ -33,12 +33,15 @@ RELABEL = {
     'nest_skip_mix': {'*': ['C08']},
     'ws_choice_nullable': {'C09': ['C09', 'C08'], 'C01': ['C08', 'C01', 'C09'], '*': ['C08']}, 'ws_choice_opt_arm': {'C01': ['C08', 'C01'], '*': ['C08']},
     'check_position': {'C09': ['C09'], '*': ['C14']}, 'seq_rebind': {'*': ['C02']}, 'string_insensitive': {'*': ['C02']},
-    'opt_choice_fields': {'*': ['C02']}, 'choice_arm_choice_fields': {'*': ['C02']}, 'position_string_utf8': {'*': ['C09']},
+    'opt_choice_fields': {'*': ['C02']}, 'choice_arm_choice_fields': {'*': ['C02']}, 'position_string_utf8': {'C04': ['C04'], '*': ['C09']},
     'include_same_name_other_body': {'C01': ['C13', 'C08'], '*': ['C13']},
     'char_rule_single': {'C10': ['C10'], '*': ['C14', 'C01']}, 'include_diamond': {'*': ['C13']}, 'include_boxed': {'*': ['C13']},
     'memo_include': {'*': ['C05', 'C13', 'C14']}, 'leftrec_unnamed': {'C10': ['C10'], '*': ['C07']}, 'leftrec_optional_tail': {'C10': ['C10'], '*': ['C07', 'C02']},
     'ws_lookahead_tail': {'C09': ['C09', 'C08'], '*': ['C08']}, 'memo_position_two_entries': {'C09': ['C09', 'C05'], '*': ['C05']},
     'ws_choice_then_char': {'C02': ['C02', 'C08'], '*': ['C08']}, 'memo_lookahead_reuse': {'C10': ['C10'], '*': ['C05']}, 'extern_noskip_blanks': {'C10': ['C10'], '*': ['C14']}, 'memo_deep': {'C10': ['C10'], '*': ['C01']},
+    'optional_field_reused': {'*': ['C02']}, 'closure_field_named_result': {'*': ['C02']},
+    'memo_user_ctx': {'C06': ['C06'], '*': ['C05']}, 'memo_failure_reuse': {'C06': ['C06'], '*': ['C05']},
+    'char_rule_ws': {'C10': ['C10'], '*': ['C08', 'C01']}, 'term_insensitive_nonletter': {'C10': ['C10'], '*': ['C01', 'C12']},
     'enum_field': {'*': ['C02']}, 'boxed': {'*': ['C02']}, 'box_merge': {'*': ['C02']}, 'override_simple': {'*': ['C02']}, 'override_enum': {'*': ['C02']},
 }
 # driver-level verdicts (reject / compile / same_as) and compile errors are attributed to:
